@@ -104,12 +104,19 @@ fn attempts(run_log: &[crate::wire::Ev]) -> Vec<(Proto, u16)> {
         .collect()
 }
 
+static FIDELITY: std::sync::atomic::AtomicU64 = std::sync::atomic::AtomicU64::new(0);
+
 pub struct C03;
 
 impl Prop for C03 {
     type Case = Case;
 
     fn id(&self) -> &'static str { "C03" }
+
+    fn extra_evidence(&self) -> serde_json::Value {
+        serde_json::json!({"traces_validated_against_impl": FIDELITY.load(std::sync::atomic::Ordering::Relaxed),
+                           "traces_validated_note": "a sample of the Java (TCP) and Bedrock (UDP) cases is replayed over real loopback sockets with the same reference server; the result must equal the scripted-transport result"})
+    }
 
     fn rule(&self) -> String {
         "random Minecraft statuses: Java JSON (any Unicode version name, i32 protocol, u32 counts, sample absent/null/[]/1-12 entries, description \
@@ -187,6 +194,11 @@ impl Prop for C03 {
                     Via::Games => run_scripted(Box::new(server), || minecraft::query_java(&ip, None, None)),
                 };
                 o.failure = expect_java("minecraft::query_java", &run, &st.expected());
+                if o.failure.is_none() && *via == Via::Protocol && crate::runner::digest(st.version_name.as_bytes()) % 24 == 0 {
+                    let spec2 = spec.clone();
+                    let make = move || Box::new(McServer::new(spec2.clone())) as Box<dyn crate::wire::Responder>;
+                    crate::realnet::fidelity("C03 java", Proto::Tcp, make, &run, 1500, |a, t| minecraft::protocol::query_java(&a, t, None), &FIDELITY);
+                }
                 if o.failure.is_none() && *via == Via::Games && attempts(&run.log) != vec![(Proto::Tcp, 25565)] {
                     o.fail("C03|games::minecraft::query_java|port|default port", json!({"attempts": format!("{:?}", attempts(&run.log))}));
                 }
@@ -202,6 +214,11 @@ impl Prop for C03 {
                     Via::Games => run_scripted(Box::new(server), || minecraft::query_bedrock(&ip, None)),
                 };
                 o.failure = expect_equal("C03", "minecraft::query_bedrock", &run, &st.expected(), &[]);
+                if o.failure.is_none() && *via == Via::Protocol && crate::runner::digest(st.motd.as_bytes()) % 24 == 0 {
+                    let spec2 = spec.clone();
+                    let make = move || Box::new(McServer::new(spec2.clone())) as Box<dyn crate::wire::Responder>;
+                    crate::realnet::fidelity("C03 bedrock", Proto::Udp, make, &run, 1000, |a, t| minecraft::protocol::query_bedrock(&a, t), &FIDELITY);
+                }
                 if o.failure.is_none() && *via == Via::Games && attempts(&run.log) != vec![(Proto::Udp, 19132)] {
                     o.fail("C03|games::minecraft::query_bedrock|port|default port", json!({"attempts": format!("{:?}", attempts(&run.log))}));
                 }
